@@ -1,23 +1,43 @@
 (* Props/C16.v — property C16: converting between XMI and JSON preserves the CAS.
    Full statements (DESIGN.md section 5, C16): xmi_json_xmi and json_xmi_json as corollaries of xmi_roundtrip,
-   json_roundtrip, load_produces_wf and inline_outline.  What is proved here are the compositions through canonical
-   content; their inputs are (a) the codec theorems of both formats — denote_save_json (C02, proved) and denote_save_xmi
-   (C01/C04, proved by the XMI development), (b) the JSON reader = denotation theorem (JsonLoadProofs.load_json_is_denotation,
-   proved; its premise doc_ok_json is a boolean on the written document, evaluated on every document of every chain),
-   (c) inline_outline_at: the XMI view of a CAS is inline_of of its JSON view (Convert.v; evaluated in Coq on all four
-   CASes of every chain).  (c) is an explicit premise, hence the suffix _partial where it occurs. *)
-From Cassis Require Import Base Heap Schema Canon Reach JsonDoc Json JsonProofs JsonLoadProofs CorrC02 Convert ConvertProofs.
-From Cassis Require Lex Xmi XmiDoc.
+   json_roundtrip, load_produces_wf and inline_outline.  The conversion statements are compositions through canonical
+   content of
+     (a) the codec theorems of both formats — denote_save_json (C02) and denote_save_xmi (C01/C04),
+     (b) the reader = denotation theorems — JsonLoadProofs.load_json_is_denotation (C02/C05 JSON half; its premise
+         doc_ok_json is a boolean on the written document) and, for the XMI reader leg, C01_xmi_roundtrip_partial
+         (= C04_denote_save_xmi + C01_saved_document_is_readable + C05_load_xmi_is_denotation),
+     (c) inline_outline: the XMI view of a CAS is inline_of of its JSON view (Convert.v) — PROVED here for every CAS
+         satisfying the boolean ConvertWf.wf_convb (C16_inline_outline, ConvertInline.v), no longer a premise.
+   Premises left, all booleans on the schema, the input CAS or the written document: wf_convb (= Xmi.wf_inb, the XMI
+   writer's input premise + XmiLoad.schema_okb, what a TypeSystem guarantees + Json.wf_jsonb / ids_distinctb / refs_wfb,
+   the JSON writer's premises: the structures carry their ids + slots_declb: objects have only declared attributes),
+   XmiRt.wf_rtb for the XMI reader leg (C01), doc_ok_json of the written JSON document (C02: proved for its closed part),
+   0 < next id, the document has the initial view.  That the XMI reader succeeds is a hypothesis as in C01.
+   The statements of the first build that take inline_outline_at as a premise are kept (suffix _partial). *)
+From Cassis Require Import Base Heap Schema Canon Reach JsonDoc Json JsonProofs JsonLoadProofs CorrC02 Convert ConvertWf ConvertInline ConvertProofs.
+From Cassis Require Lex Xmi XmiDoc XmiLoad XmiRt XmiExample.
 From Cassis.Props Require C02.
 Open Scope Z_scope.
 
-Theorem C16_xmi_json_xmi_partial : forall L s mode c1 j c1' cc,
-  lex_ok L -> save_json L s mode c1 = Ok (j, c1') -> wf_jsonb s c1' = true -> 0 < c_next_id c1 ->
+(* inline_outline: the JSON view of a well-formed CAS (every collection a structure of its own, references as ids)
+   determines its XMI view (collections held by features without multipleReferencesAllowed by content, only what XMI
+   stores separately).  Relates the traversals find_all_fs true / find_all_fs false through ReachProofs.find_all_exact /
+   find_all_closed and ReachSpec.succs_declarative: the XMI-reachable set lies inside the JSON-reachable set, the closure
+   reach_c computes on canonical content is its set of ids, and inlining by content reads the same slots. *)
+Theorem C16_inline_outline : forall s c j,
+  wf_convb s c = true -> canon_json s c = Ok j -> inline_of s j = Xmi.canon_xmi s c.
+Proof. exact inline_outline. Qed.
+Print Assumptions C16_inline_outline.
+
+(* XMI -> CAS -> JSON -> CAS: c1 the CAS loaded first, j the JSON document written from it, c1' the same CAS with the ids
+   the save assigned; what the JSON reader builds from j, seen in the XMI view, is the XMI view of c1' (views, sofa data,
+   structures, ids, values, reference structure, offsets, membership) *)
+Theorem C16_xmi_json_xmi : forall L s mode c1 j c1' cc,
+  lex_ok L -> save_json L s mode c1 = Ok (j, c1') -> wf_convb s c1' = true -> 0 < c_next_id c1 ->
   doc_ok_json L s j = true -> initial_view_in c1' = true -> canon_json s c1' = Ok cc ->
-  inline_outline_at s c1' ->
   (do x <- load_json L s j ;; inline_of s x) = Xmi.canon_xmi s c1'.
 Proof. exact xmi_json_xmi. Qed.
-Print Assumptions C16_xmi_json_xmi_partial.
+Print Assumptions C16_xmi_json_xmi.
 
 Theorem C16_json_leg_preserves : forall L s mode c1 j c1' cc,
   lex_ok L -> save_json L s mode c1 = Ok (j, c1') -> wf_jsonb s c1' = true -> 0 < c_next_id c1 ->
@@ -26,6 +46,46 @@ Theorem C16_json_leg_preserves : forall L s mode c1 j c1' cc,
 Proof. exact json_leg_preserves. Qed.
 Print Assumptions C16_json_leg_preserves.
 
+(* JSON -> CAS -> XMI -> CAS, with the XMI reader mechanism: c1 the CAS loaded first (its JSON view jv is what j0
+   denotes), x the XMI document written from it, c2 what XmiLoad.load_xmi builds from x: the content of c2 is the XMI view
+   of what j0 says, up to ""/null inside string collections.  Adapter between the XMI reader's CAS type (lcas) and
+   canonical content: XmiLoad.canon_loaded. *)
+Theorem C16_json_xmi_json : forall L s (fmt_flt : flt -> string) (parse_flt : string -> option flt) j0 c1 jv x c1' c2,
+  (forall f, parse_flt (fmt_flt f) = Some f) -> (forall f, Lex.tok_ok (fmt_flt f)) ->
+  denote_json L s j0 = Ok jv -> canon_json s c1 = Ok jv ->
+  wf_convb s c1 = true -> XmiRt.wf_rtb s c1 = true ->
+  Xmi.save_xmi fmt_flt s c1 = Ok (x, c1') -> XmiLoad.load_xmi parse_flt s false x = Ok c2 ->
+  XmiLoad.canon_loaded s c2 = (do v <- inline_of s jv ;; Ok (XmiDoc.norm_xmi s v)).
+Proof. exact json_xmi_json. Qed.
+Print Assumptions C16_json_xmi_json.
+
+(* the same leg over the declarative reading of the XMI document *)
+Theorem C16_json_xmi_json_denote : forall L s (fmt_flt : flt -> string) (parse_flt : string -> option flt) j0 c1 jv x c1',
+  (forall f, parse_flt (fmt_flt f) = Some f) -> (forall f, Lex.tok_ok (fmt_flt f)) ->
+  denote_json L s j0 = Ok jv -> canon_json s c1 = Ok jv -> wf_convb s c1 = true ->
+  Xmi.save_xmi fmt_flt s c1 = Ok (x, c1') ->
+  XmiDoc.denote_xmi parse_flt s x = (do v <- inline_of s jv ;; Ok (XmiDoc.norm_xmi s v)).
+Proof. exact json_xmi_json_denote. Qed.
+Print Assumptions C16_json_xmi_json_denote.
+
+(* the two documents written from one CAS agree: the XMI document denotes the XMI view of what the JSON document denotes *)
+Theorem C16_conversion_documents_agree : forall L s mode (fmt_flt : flt -> string) (parse_flt : string -> option flt) c x c' j c'' jv,
+  lex_ok L -> (forall f, parse_flt (fmt_flt f) = Some f) -> (forall f, Lex.tok_ok (fmt_flt f)) ->
+  Xmi.wf_casb s c = true -> Xmi.save_xmi fmt_flt s c = Ok (x, c') ->
+  save_json L s mode c = Ok (j, c'') -> wf_convb s c'' = true -> 0 < c_next_id c -> canon_json s c'' = Ok jv ->
+  Xmi.canon_xmi s c'' = Xmi.canon_xmi s c ->
+  XmiDoc.denote_xmi parse_flt s x = (do jv <- denote_json L s j ;; do v <- inline_of s jv ;; Ok (XmiDoc.norm_xmi s v)).
+Proof. exact conversion_documents_agree. Qed.
+Print Assumptions C16_conversion_documents_agree.
+
+(* ---- the statements of the first build: inline_outline_at as an explicit premise, no well-formedness of the CAS ---- *)
+Theorem C16_xmi_json_xmi_partial : forall L s mode c1 j c1' cc,
+  lex_ok L -> save_json L s mode c1 = Ok (j, c1') -> wf_jsonb s c1' = true -> 0 < c_next_id c1 ->
+  doc_ok_json L s j = true -> initial_view_in c1' = true -> canon_json s c1' = Ok cc ->
+  inline_outline_at s c1' ->
+  (do x <- load_json L s j ;; inline_of s x) = Xmi.canon_xmi s c1'.
+Proof. exact xmi_json_xmi_given_outline. Qed.
+Print Assumptions C16_xmi_json_xmi_partial.
 Theorem C16_json_xmi_json_partial : forall L s (fmt_flt : flt -> string) (parse_flt : string -> option flt) j0 c1 x c1',
   (forall f, parse_flt (fmt_flt f) = Some f) -> (forall f, Lex.tok_ok (fmt_flt f)) ->
   canon_json s c1 = denote_json L s j0 ->
@@ -33,31 +93,31 @@ Theorem C16_json_xmi_json_partial : forall L s (fmt_flt : flt -> string) (parse_
   (forall all, Xmi.written s c1 = Ok (c1', all) -> Xmi.wf_xmib s c1' all = true) ->
   inline_outline_at s c1 ->
   XmiDoc.denote_xmi parse_flt s x = (do j <- denote_json L s j0 ;; do v <- inline_of s j ;; Ok (XmiDoc.norm_xmi s v)).
-Proof. exact json_xmi_json. Qed.
+Proof. exact json_xmi_json_given_outline. Qed.
 Print Assumptions C16_json_xmi_json_partial.
 
-(* the two documents written from one CAS agree: the XMI document denotes the XMI view of what the JSON document denotes *)
-Theorem C16_conversion_documents_agree : forall L s mode (fmt_flt : flt -> string) (parse_flt : string -> option flt) c x c' j c'',
-  lex_ok L -> (forall f, parse_flt (fmt_flt f) = Some f) -> (forall f, Lex.tok_ok (fmt_flt f)) ->
-  Xmi.save_xmi fmt_flt s c = Ok (x, c') ->
-  (forall all, Xmi.written s c = Ok (c', all) -> Xmi.wf_xmib s c' all = true) ->
-  save_json L s mode c = Ok (j, c'') -> wf_jsonb s c'' = true -> 0 < c_next_id c ->
-  inline_outline_at s c'' -> Xmi.canon_xmi s c'' = Xmi.canon_xmi s c ->
-  XmiDoc.denote_xmi parse_flt s x = (do jv <- denote_json L s j ;; do v <- inline_of s jv ;; Ok (XmiDoc.norm_xmi s v)).
-Proof. exact conversion_documents_agree. Qed.
-Print Assumptions C16_conversion_documents_agree.
-
-(* non-vacuity: on the example CAS of C02 (three views, astral text, inlined and shared collections, extended
-   DocumentAnnotation) the premises hold — in particular the two canonical views are related by inline_of — and the
-   conclusion of the JSON leg is an equation between two successful results *)
+(* non-vacuity (1): on the example CAS of C02 after its save (three views, astral text, a sofa byte array, extended
+   DocumentAnnotation, reserved feature names, an inlined IntegerArray) the premises of C16_xmi_json_xmi hold — wf_convb
+   in particular — and the conclusion of the JSON leg is an equation between two successful results *)
 Example C16_premises_hold :
   let s := full_schema (c_user C02.ex_case) in
   match save_json std_lex s MFull (c_cas C02.ex_case) with
   | Ok (j, c') =>
-      wf_jsonb s c' = true /\ 0 < c_next_id (c_cas C02.ex_case) /\
+      wf_convb s c' = true /\ XmiRt.wf_rtb s c' = true /\ 0 < c_next_id (c_cas C02.ex_case) /\
       doc_ok_json std_lex s j = true /\ initial_view_in c' = true /\
-      load_json std_lex s j = canon_json s c' /\ inline_outline_at s c' /\
-      match Xmi.canon_xmi s c' with Ok x => (2 <= List.length (cc_fs x))%nat | _ => False end
+      load_json std_lex s j = canon_json s c' /\
+      match canon_json s c', Xmi.canon_xmi s c' with Ok _, Ok x => (2 <= List.length (cc_fs x))%nat | _, _ => False end
   | _ => False
   end.
 Proof. vm_compute. repeat split; try reflexivity; repeat constructor. Qed.
+(* non-vacuity (2): the example CAS of C01/C04 (two views, a reference cycle, an inline FSArray with a null element, a
+   shared FSArray, an empty inline StringList, a referenced-only annotation; every structure carries its id) satisfies
+   wf_convb and wf_rtb; its JSON view lists 7 structures, its XMI view 5 *)
+Example C16_premises_hold_inline :
+  let s := (XmiExample.ex_schema ++ [mkTi "uima.cas.NULL" ["uima.cas.NULL"; "uima.cas.TOP"] []])%list in
+  wf_convb s XmiExample.ex_cas = true /\ XmiRt.wf_rtb s XmiExample.ex_cas = true /\
+  match canon_json s XmiExample.ex_cas, Xmi.canon_xmi s XmiExample.ex_cas with
+  | Ok j, Ok x => List.length (cc_fs j) = 7%nat /\ List.length (cc_fs x) = 5%nat
+  | _, _ => False
+  end.
+Proof. vm_compute. repeat split; reflexivity. Qed.
